@@ -79,7 +79,29 @@ def e1(prog, ctx, L):
                 ok, cut = cfg.all_paths_cut(tb, lambda lit, b, i: pred(lit), start=L.header)
                 if not (ok and cut):
                     bad.append(label)
-            if not bad:
+            def _joined_by_or(label):
+                # the bracket comparison is one alternative of an `||` (`len == 0 || name[len - 1] != ']'`): the other alternative - no
+                # text at all behind the '[' - is a way to the same verdict that the rule does not follow
+                pred = dict(conds)[label]
+                for (b9, i9, s9) in cfg.edges():
+                    if pred(cfg.edge_lit(b9, i9)) and (s9 == tb or tb in cfg.reachable(s9)):
+                        c9 = cfg.blocks[b9].cond
+                        top9 = c9
+                        chain9 = [c9.strip()] if c9 is not None else []
+                        while top9 is not None and top9.parent is not None and top9.parent.k in ("BinaryOperator", "ParenExpr", "ImplicitCastExpr", "UnaryOperator"):
+                            top9 = top9.parent
+                            chain9.append(top9)
+                        for top9 in chain9:
+                            if top9.k == "BinaryOperator" and top9.j.get("op") == "||":
+                                others = [x9 for x9 in top9.walk() if x9.k == "BinaryOperator" and x9.j.get("op") in ("==", "<", "<=") and
+                                          0 in (x9.children[0].const_value(), x9.children[1].const_value())]
+                                if others:
+                                    return True
+                return False
+            if bad == ["last non-blank is not ']'"] and _joined_by_or(bad[0]):
+                ctx.inconclusive("E1", "%s only for its malformed line" % const, st.where,
+                                 "the test for the closing bracket is joined by `||` with a test for an empty text: not followed")
+            elif not bad:
                 ctx.ok("E1", "%s only for its malformed line" % const, st.where, "every path carries: " + "; ".join(c[0] for c in conds))
             else:
                 ctx.fail("E1", "%s only for its malformed line" % const, st.where,
